@@ -67,7 +67,7 @@ def mix_configs(tier):
     if tier == 'thorough':
         allk = singles + multis + special
         tuples = [()] + [(i,) for i in allk] + list(itertools.product(allk, allk)) + triples + [
-            (('l', 'A'), ('g', 'A'), ('s', 'B'), ('SELF', 'A')), (('gl', 'A'), ('lL', 'A'), ('gl', 'B'), ('l', 'B'))]
+            (('l', 'A'), ('g', 'A'), ('s', 'B'), ('SELF', 'A')), (('gl', 'A'), ('l', 'A'), ('g', 'B'), ('l', 'B'))]
     out = []
     for r in recvs:
         for t in tuples:
